@@ -168,11 +168,11 @@ Definition set_ph (g : glob) (p : phase) (b : bool) : glob :=
        (faults g) (created g) (destroyed g) (races g) (committed g) (ncommit g) (nret g) (applied g) (initv g) p b.
 Definition set_cp (g : glob) (x : bool) (c : lrcopy) (nr : nat) : glob :=
   Glob (omtx g) (imtx g) (rl g) (cl g) (lc g) (rc g) (if x then c else cleft g) (if x then cright g else c) (heap g) (next g)
-       (plan g) (calls g) (faults g) (created g) (destroyed g) (races g + nr) (committed g) (ncommit g) (nret g) (applied g)
+       (plan g) (calls g) (faults g) (created g) (destroyed g) (nr + races g) (committed g) (ncommit g) (nret g) (applied g)
        (initv g) (gph g) (glcl g).
 Definition set_heap (g : glob) (h : nat -> ver) (nf : nat) : glob :=
   Glob (omtx g) (imtx g) (rl g) (cl g) (lc g) (rc g) (cleft g) (cright g) h (next g) (plan g) (calls g)
-       (faults g + nf) (created g) (destroyed g) (races g) (committed g) (ncommit g) (nret g) (applied g) (initv g) (gph g) (glcl g).
+       (nf + faults g) (created g) (destroyed g) (races g) (committed g) (ncommit g) (nret g) (applied g) (initv g) (gph g) (glcl g).
 Definition set_calls (g : glob) (k : Z) : glob :=
   Glob (omtx g) (imtx g) (rl g) (cl g) (lc g) (rc g) (cleft g) (cright g) (heap g) (next g) (plan g) k
        (faults g) (created g) (destroyed g) (races g) (committed g) (ncommit g) (nret g) (applied g) (initv g) (gph g) (glcl g).
@@ -203,7 +203,7 @@ Definition set_freed (x : ver) : ver := Ver (content x) (published x) (refs x) t
 Definition destroy (g : glob) (v : nat) : glob :=
   let x := heap g v in
   Glob (omtx g) (imtx g) (rl g) (cl g) (lc g) (rc g) (cleft g) (cright g) (fupd (heap g) v (set_freed x)) (next g)
-       (plan g) (calls g) (faults g) (created g) (destroyed g + 1) (races g + (if freed x then 1%nat else O))
+       (plan g) (calls g) (faults g) (created g) (destroyed g + 1) ((if freed x then 1%nat else O) + races g)
        (committed g) (ncommit g) (nret g) (applied g) (initv g) (gph g) (glcl g).
 Definition incref (g : glob) (v : nat) : glob := set_heap g (fupd (heap g) v (set_refs (heap g v) (S (refs (heap g v))))) O.
 Definition decref (g : glob) (v : nat) : glob :=
@@ -232,7 +232,8 @@ Definition wr_end (g : glob) (v : nat) (c : Z) : glob * list ev :=
   (set_heap g (fupd (heap g) v (set_content x c false)) O, [E K_WR_END (O_V v) c]).
 (* CowT::touch(): using a destroyed version is logged as fault 5 *)
 Definition touch (g : glob) (v : nat) : glob * list ev :=
-  if freed (heap g v) then (set_heap g (heap g) 1, fault_evs v [5]) else (g, []).
+  let d := freed (heap g v) in
+  (set_heap g (heap g) (if d then 1%nat else O), if d then fault_evs v [5] else []).
 
 (* ---- the invisible shared_ptr accesses (see the header comment) ---- *)
 (* a reader opens its window on copy x *)
@@ -467,7 +468,8 @@ Definition fin (l : loc) : bool := match at_ l, prog l with Idle, [] => true | _
 
 Definition init_loc (nw ns : nat) (p : list op) : loc :=
   Loc p Idle (repeat None nw) (repeat None ns) O true true O true true 0 [] O O.
-Definition init_heap (x : Z) : nat -> ver := fun _ => Ver x true 2 false 0 false O.
+Definition no_ver : ver := Ver 0 false O false 0 false O.
+Definition init_heap (x : Z) : nat -> ver := fun v => match v with O => Ver x true 2 false 0 false O | S _ => no_ver end.
 Definition init_glob (x : Z) (pl : list Z) : glob :=
   Glob None None true true 0 0 (LC O false 0) (LC O false 0) (init_heap x) 1 pl 0 O 1 0 O O O O [] x PA true.
 Definition init (nw ns : nat) (x : Z) (pl : list Z) (progs : list (list op)) : sys glob loc :=
